@@ -272,8 +272,15 @@ fn c08_check(v: &Clean, rep: &mut Rep) -> Result<(), String> {
         boots.push(b);
     }
     let stream = interleave(&seqs, choices);
-    let msgs: Vec<DltMessage> = stream.iter().enumerate().map(|(i, (m, _))| { let mut m = m.clone(); m.index = i as u32; m }).collect();
+    // (indices grow by more than one per message when a file is filtered or several files are numbered in one go; the
+    // detector publishes its table every 100 000 indices, which a short trace reaches with a stride only)
+    let mut stride = [1u32, 1, 1, 1000, 30_011, 100_003][choices.len() % 6];
+    if stream.len() as u64 * stride as u64 >= u32::MAX as u64 {
+        stride = 1;
+    }
+    let msgs: Vec<DltMessage> = stream.iter().enumerate().map(|(i, (m, _))| { let mut m = m.clone(); m.index = i as u32 * stride; m }).collect();
     let n = msgs.len();
+    rep.label_if(msgs.last().map_or(0, |m| m.index) > 100_000, "periodic_refresh_reached");
     let (res, _r, _w) = run_detector(msgs, &DetOpts { cross_thread: false, paced: false, want_listing: false }, None);
     let multi_boot = ecus.iter().any(|e| e.boots.len() >= 2);
     let first_zero = ecus.iter().any(|e| e.boots.iter().any(|b| b.msgs[0].ts_dms == 0));
@@ -490,10 +497,10 @@ pub fn c07(tier: Tier) -> PropertyDef {
 pub fn c08(tier: Tier) -> PropertyDef {
     PropertyDef {
         id: "C08",
-        rule: "M-TRACE-CLEAN: 1..4 ECUs x 1..6 boots x 1..40 messages, off-time >= 1 ms after the last reception of the previous boot, per-boot delay 0..120 s, timestamps in any order incl. 0, boot durations up to 4000 s, ECUs interleaved by a choice sequence; oracle = generator ground truth (one lifecycle per boot, every message assigned to its boot, start = boot+delay, end = start+max timestamp, nr_msgs). Non-trivial: (>=2 boots on an ECU and >=2 ECUs) or a boot starting with timestamp 0 or unsorted timestamps within a boot.",
+        rule: "M-TRACE-CLEAN: 1..4 ECUs x 1..6 boots x 1..40 messages, off-time >= 1 ms after the last reception of the previous boot, per-boot delay 0..120 s, timestamps in any order incl. 0, boot durations up to 4000 s, ECUs interleaved by a choice sequence, message indices consecutive or with a stride (1000, 30011, 100003: the periodic publication of the table every 100 000 indices is reached); oracle = generator ground truth (one lifecycle per boot, every message assigned to its boot, start = boot+delay, end = start+max timestamp, nr_msgs). Non-trivial: (>=2 boots on an ECU and >=2 ECUs) or a boot starting with timestamp 0 or unsorted timestamps within a boot.",
         assumptions: vec!["next boot time >= last reception of the previous boot + off (see DESIGN 4/C08 domain note)"],
         subs: vec![
-            sub("clean_exact", tier.pick(500_000, 8_000_000), clean(4, 6, 40), c08_check).rates(&[("ge2_boots", 0.4), ("ge2_ecus", 0.4), ("first_timestamp_zero", 0.1), ("unsorted_within_boot", 0.3), ("tiny_boot", 0.1), ("resume_flagged", 0.03), ("uptime_gt_2pow32_us", 0.03)]).boxed(),
+            sub("clean_exact", tier.pick(500_000, 8_000_000), clean(4, 6, 40), c08_check).rates(&[("ge2_boots", 0.4), ("ge2_ecus", 0.4), ("first_timestamp_zero", 0.1), ("unsorted_within_boot", 0.3), ("tiny_boot", 0.1), ("resume_flagged", 0.03), ("uptime_gt_2pow32_us", 0.03), ("periodic_refresh_reached", 0.2)]).boxed(),
         ],
         workers: 16,
     }
